@@ -394,6 +394,11 @@ pub fn run(tier: &str, seed: u64, out: &Path) -> i32 {
         let mut r2 = Rng::new(seed ^ 0x0971);
         crate::optin_corr::cases(&mut o, &mut r2, th);
         crate::vertical_corr::cases(&mut o, &mut r2, th);
+        crate::attrs_corr::cases(&mut o, &mut r2, th);
+        // the composition logic of src/types.rs and the brace decisions of match arms and closures
+        let mut r3 = Rng::new(seed ^ 0x7e9e5);
+        crate::types_corr::cases(&mut o, &mut r3, th);
+        crate::braces_corr::cases(&mut o, &mut r3, th);
     }
     o.finish(out, jobs())
 }
